@@ -1,18 +1,18 @@
 #!/bin/sh
 # MANIFEST.setup_cmd: offline; syntax-check every TLA+ module of /verif/spec with SANY.
 cd "$(dirname "$0")" || exit 2
-export PYTHONPATH=/verif
+export PYTHONPATH="$(pwd)"
 exec /venv/bin/python - <<'PY'
 import glob, os, sys
 from harness.tlc import sany
 bad = 0
-for f in sorted(glob.glob("/verif/spec/*.tla")):
+for f in sorted(glob.glob(os.path.join(os.getcwd(), "spec", "*.tla"))):
     m = os.path.basename(f)[:-4]
     ok, out = sany(m)
     if not ok:
         bad += 1
         print("SANY FAILED:", m)
         print(out[-2000:])
-print("setup: %d modules checked, %d failed" % (len(glob.glob('/verif/spec/*.tla')), bad))
+print("setup: %d modules checked, %d failed" % (len(glob.glob(os.path.join(os.getcwd(), "spec", "*.tla"))), bad))
 sys.exit(1 if bad else 0)
 PY
